@@ -74,6 +74,13 @@ def bounded(tier, seed):
     out = [run_cases("removals", pairings_upto(nmax), O.c12_removals, has_isolated,
                      f"all pairings N<={nmax}: without_pseudoknots / without_isolated against their definitions; non-trivial = has an isolated pair",
                      f"N<={nmax}", sig=lambda p: "".join(map(str, p)), relates="without_")]
+    # structures whose own dot-bracket needs 4-6 bracket types ('<>' and letters): k mutually crossing stems
+    def clique(k):
+        return tuple(list(range(k + 1, 2 * k + 1)) + list(range(1, k + 1)))
+    deep = [clique(4), clique(5), clique(6), clique(4) + tuple(x + 8 if x else 0 for x in (2, 1)), clique(7)]
+    out.append(run_cases("removals-many-levels", deep, O.c12_removals, lambda p: True,
+                         "k = 4..7 mutually crossing stems (bracket types beyond '()[]{}'): without_pseudoknots / without_isolated against their definitions",
+                         f"{len(deep)} structures", sig=lambda p: f"clique-like-{len(p)}", relates="without_"))
     structs = [p for p in pairings_upto(6) if p and any(p)]
     rnd = [random_structure(rng, rng.randint(10, 40), rng.randint(2, 6), maxlen=3) for _ in range(40)]
     L = 4 if tier == "quick" else 8
